@@ -1,6 +1,16 @@
 //! C17: Relativizer::relativize against the resolve-back oracle (BaseIri::resolve) and against the
 //! Coq model (C17/Model.v: relativize, the oxiri resolver model, RFC 3986 section 5.2).
-use sophia_iri::{Iri, relativize::Relativizer, resolve::BaseIri};
+//! Round 4: next to the random stream there is a DIRECTED stream of IRIs that are EQUIVALENT to the base (or to an
+//! IRI relativizable against it) under some normalisation but not identical to it (letter case of scheme / host,
+//! percent-encoding case, encoded unreserved characters, default port, empty path vs "/", dot segments, Unicode
+//! normal form, empty query/fragment, ...) applied at every component; the property demands the EXACT IRI back.
+//! Every entry point is exercised: Relativizer over seven container types, built from BaseIri::new / Iri::to_base /
+//! Iri::as_base / BaseIriRef::to_base_iri, cloned, reused for several IRIs, base(); parents up to 255; the typed and
+//! the &str routes of BaseIri / BaseIriRef / Iri / IriRef resolve and resolve_into for resolving back.
+use sophia_iri::{Iri, IriRef, relativize::Relativizer, resolve::{BaseIri, BaseIriRef}};
+use std::borrow::{Borrow, Cow};
+use std::ops::Deref;
+use std::panic::{AssertUnwindSafe, catch_unwind};
 use verif_harness::*;
 
 /// hand-written pairs placed at the first case indices: the known witnesses and one pair per branch
@@ -49,17 +59,59 @@ const FIXED: &[(&str, &str)] = &[
     ("http://a/b/c", "http://a/b/x/.."),
     ("http://a/b/c", "https://a/b/c"),
     ("http://a/b/c", "http://ab/b/c"),
+    // round 4: equivalent under some normalisation, not identical (the exact IRI must come back, or nothing)
+    ("http://example.org/a/b", "HTTP://example.org/a/c"),     // scheme letter case
+    ("http://example.org/a/b", "Http://example.org/a/b"),
+    ("http://example.org/a/b", "hTTp://example.org/a/b#f"),
+    ("http://example.org/a/b?q", "HTTP://example.org/a/b?r"),
+    ("HTTP://example.org/a/b", "http://example.org/x"),
+    ("urn:isbn:123", "URN:isbn:456"),
+    ("x-ample:a/b/c", "X-Ample:a/d"),
+    ("http://example.org/a/b", "http://EXAMPLE.org/a/c"),     // host letter case
+    ("http://Example.org/a/b", "http://example.org/a/b#f"),
+    ("http://example.org/a/b", "http://example.org:80/a/c"),  // default port
+    ("http://example.org:80/a/b", "http://example.org/a/c"),
+    ("http://example.org:/a/b", "http://example.org/a/c"),
+    ("http://h/%2fa/b", "http://h/%2Fa/c"),                   // percent-encoding case
+    ("http://h/a%2fb/c", "http://h/a%2Fb/c"),
+    ("http://h/a/b?k=%2f", "http://h/a/b?k=%2F"),
+    ("http://h/%7Euser/b", "http://h/~user/c"),               // encoded unreserved characters
+    ("http://h/a/b", "http://h/%61/c"),
+    ("http://h/a/b", "http://h/a/%62"),
+    ("http://h", "http://h/"),                                // empty path vs "/"
+    ("http://h/", "http://h"),
+    ("http://h?q", "http://h/?q"),
+    ("http://h/?q", "http://h?q"),
+    ("http://h/a/b", "http://h/a/b/."),                       // dot segments
+    ("http://h/a/b", "http://h/a/b/c/.."),
+    ("http://h/a/b/", "http://h/a/b/."),
+    ("http://h/a/b/.", "http://h/a/b/"),
+    ("http://h/a/./b", "http://h/a/b"),
+    ("http://h/a/b?q", "http://h/a/b?Q"),                     // letter case elsewhere
+    ("http://h/a/b#f", "http://h/a/b#F"),
+    ("http://h/a/b", "http://h/A/b"),
+    ("http://h/caf\u{e9}/b", "http://h/cafe\u{301}/b"),       // Unicode normal form
+    ("http://h/cafe\u{301}/b", "http://h/caf\u{e9}/b"),
+    ("file:/a/b", "file:///a/b"),                             // no authority vs empty authority
+    ("file:///a/b", "file:/a/c"),
+    ("http://u@h/a", "http://U@h/a"),
+    ("http://h/a/b", "http://h/a/b?"),                        // empty query / fragment
+    ("http://h/a/b?", "http://h/a/b"),
+    ("http://h/a/b", "http://h/a/b#"),
+    ("http://h/a/b#", "http://h/a/b"),
 ];
 
 const SCHEMES: &[&str] = &["http", "s", "x-ample", "urn"];
-const AUTHS: &[&str] = &["a", "a", "h:80", "u@h", "\u{e9}", "\u{65e5}\u{672c}", "", "[::1]"];
+const AUTHS: &[&str] = &["a", "a", "h:80", "u@h", "\u{e9}", "\u{65e5}\u{672c}", "", "[::1]", "Example.org", "example.org:80", "h:", "u@H.x:8080", "[::a]", "%41b.c", "a"];
 const SEGS: &[&str] = &[
     "a", "b", "c", "d", "a", "b", "bc", "x:y", "c:d", ":", "", "", ".", "..", "\u{e9}", "\u{e8}", "\u{e9}e", "\u{65e5}\u{672c}", "\u{65e5}\u{6708}",
     "b.c", "..x", ".x", "...", "%2e", "a@b", "a;p=1", "\u{1F600}", "\u{1F601}", "1", "x+y",
+    "%2F", "%2f", "%7Euser", "~user", "%61", "A", "caf\u{e9}", "cafe\u{301}", "a%2fb",
 ];
-const QUERIES: &[&str] = &["q", "q/r?s", "", "\u{e9}", "q=1&r=../x", "q"];
-const FRAGS: &[&str] = &["f", "f/g?h", "", "\u{e8}", "f"];
+const QUERIES: &[&str] = &["q", "q/r?s", "", "\u{e9}", "q=1&r=../x", "q", "k=%2f", "K=v"];
+const FRAGS: &[&str] = &["f", "f/g?h", "", "\u{e8}", "f", "%2F", "Frag"];
 
+#[derive(Clone)]
 struct Parts { scheme: String, auth: Option<String>, rooted: bool, segs: Vec<String>, query: Option<String>, frag: Option<String> }
 impl Parts {
     fn text(&self) -> String {
@@ -75,7 +127,7 @@ impl Parts {
 fn gen_parts(r: &mut Rng) -> Parts {
     let scheme = r.pick(SCHEMES).to_string();
     let auth = if r.chance(2, 3) { Some(r.pick(AUTHS).to_string()) } else { None };
-    let nseg = if r.chance(1, 8) { 0 } else { r.range(1, 5) };
+    let nseg = if r.chance(1, 8) { 0 } else if r.chance(1, 10) { r.range(6, 12) } else { r.range(1, 5) };
     let segs: Vec<String> = (0..nseg).map(|_| r.pick(SEGS).to_string()).collect();
     let rooted = auth.is_some() || r.chance(1, 2);
     let query = if r.chance(1, 3) { Some(r.pick(QUERIES).to_string()) } else { None };
@@ -103,6 +155,173 @@ fn gen_related(r: &mut Rng, b: &Parts) -> Parts {
     if r.chance(1, 15) { if let Some(a) = &mut p.auth { a.push('x'); } }
     p
 }
+// ---------- round 4: IRIs equivalent to another one under some normalisation, but not identical ----------
+fn parse_parts(t: &str) -> Parts {
+    let (scheme, rest) = t.split_once(':').expect("directed base without scheme");
+    let (rest, frag) = match rest.split_once('#') { Some((a, f)) => (a, Some(f.to_string())), None => (rest, None) };
+    let (rest, query) = match rest.split_once('?') { Some((a, q)) => (a, Some(q.to_string())), None => (rest, None) };
+    let (auth, path) = match rest.strip_prefix("//") { Some(x) => { let k = x.find('/').unwrap_or(x.len()); (Some(x[..k].to_string()), &x[k..]) } None => (None, rest) };
+    let rooted = auth.is_some() || path.starts_with('/');
+    let segs: Vec<String> = if path.is_empty() { vec![] } else { path.strip_prefix('/').unwrap_or(path).split('/').map(String::from).collect() };
+    let p = Parts { scheme: scheme.to_string(), auth, rooted, segs, query, frag };
+    assert_eq!(p.text(), t, "parse_parts/text round trip");
+    p
+}
+/// byte range of the host inside an authority (after the userinfo, before the port)
+fn host_range(a: &str) -> (usize, usize) {
+    let st = a.rfind('@').map(|k| k + 1).unwrap_or(0);
+    let en = if a[st..].starts_with('[') { a[st..].find(']').map(|k| st + k + 1).unwrap_or(a.len()) } else { a[st..].find(':').map(|k| st + k).unwrap_or(a.len()) };
+    (st, en)
+}
+fn toggle(c: char) -> char { if c.is_ascii_lowercase() { c.to_ascii_uppercase() } else { c.to_ascii_lowercase() } }
+/// toggle the case of a random non-empty subset of the ASCII letters at the given char positions
+fn toggle_some(r: &mut Rng, s: &str, positions: &[usize]) -> String {
+    if positions.is_empty() { return s.to_string() }
+    let forced = positions[r.below(positions.len())];
+    let all = r.chance(1, 3);
+    s.chars().enumerate().map(|(k, c)| if positions.contains(&k) && (k == forced || all || r.chance(1, 3)) { toggle(c) } else { c }).collect()
+}
+fn is_unreserved(c: char) -> bool { c.is_ascii_alphanumeric() || "-._~".contains(c) }
+/// char positions of the '%' of every well-formed escape
+fn escapes(s: &str) -> Vec<usize> {
+    let v: Vec<char> = s.chars().collect();
+    (0..v.len()).filter(|&k| v[k] == '%' && k + 2 < v.len() && v[k + 1].is_ascii_hexdigit() && v[k + 2].is_ascii_hexdigit()).collect()
+}
+fn in_escape(esc: &[usize], k: usize) -> bool { esc.iter().any(|&e| k > e && k <= e + 2) }
+fn comps(p: &mut Parts, with_auth: bool) -> Vec<&mut String> {
+    let Parts { auth, segs, query, frag, .. } = p;
+    let mut v: Vec<&mut String> = vec![];
+    if with_auth { if let Some(a) = auth.as_mut() { v.push(a) } }
+    v.extend(segs.iter_mut());
+    if let Some(q) = query.as_mut() { v.push(q) }
+    if let Some(f) = frag.as_mut() { v.push(f) }
+    v
+}
+/// apply `f` to one random component among those where it yields a different text
+fn on_component(r: &mut Rng, p: &mut Parts, with_auth: bool, f: &mut dyn FnMut(&mut Rng, &str) -> Option<String>) -> bool {
+    let mut cs = comps(p, with_auth);
+    let start = r.below(cs.len().max(1));
+    for d in 0..cs.len() {
+        let k = (start + d) % cs.len();
+        if let Some(t) = f(r, cs[k].as_str()) { if t != *cs[k] { *cs[k] = t; return true; } }
+    }
+    false
+}
+const KINDS: &[&str] = &[
+    "scheme-upper", "scheme-mixed-case", "host-case", "pct-hex-case", "pct-encode-unreserved", "pct-decode-unreserved", "default-port",
+    "empty-path-vs-slash", "dot-segments", "trailing-slash", "unicode-form", "empty-query-fragment", "letter-case-elsewhere", "userinfo-or-empty-authority",
+];
+/// the IRI `p` rewritten into an equivalent (or nearly equivalent) but textually different one; None when the
+/// rewriting does not apply to `p`
+fn variant(r: &mut Rng, p: &Parts, kind: usize) -> Option<Parts> {
+    let mut q = p.clone();
+    let done = match kind {
+        0 => { q.scheme = if p.scheme.chars().any(|c| c.is_ascii_lowercase()) { p.scheme.to_ascii_uppercase() } else { p.scheme.to_ascii_lowercase() }; true }
+        1 => { let pos: Vec<usize> = p.scheme.chars().enumerate().filter(|(_, c)| c.is_ascii_alphabetic()).map(|(k, _)| k).collect(); q.scheme = toggle_some(r, &p.scheme, &pos); true }
+        2 => match &p.auth { Some(a) => {
+                let (st, en) = host_range(a);
+                let pos: Vec<usize> = a.char_indices().enumerate().filter(|(_, (bk, c))| *bk >= st && *bk < en && c.is_ascii_alphabetic()).map(|(k, _)| k).collect();
+                if pos.is_empty() { false } else { q.auth = Some(toggle_some(r, a, &pos)); true }
+            } None => false },
+        3 => on_component(r, &mut q, true, &mut |r, s| {
+                let esc = escapes(s);
+                let pos: Vec<usize> = s.chars().enumerate().filter(|(k, c)| in_escape(&esc, *k) && c.is_ascii_alphabetic()).map(|(k, _)| k).collect();
+                if pos.is_empty() { None } else { Some(toggle_some(r, s, &pos)) }
+            }),
+        4 => on_component(r, &mut q, p.auth.as_deref().map_or(false, |a| !a.contains([':', '[', '@'])), &mut |r, s| {
+                let esc = escapes(s);
+                let pos: Vec<usize> = s.chars().enumerate().filter(|(k, c)| is_unreserved(*c) && !in_escape(&esc, *k)).map(|(k, _)| k).collect();
+                if pos.is_empty() { return None }
+                let at = pos[r.below(pos.len())];
+                let lower = r.chance(1, 2);
+                Some(s.chars().enumerate().map(|(k, c)| if k == at { if lower { format!("%{:02x}", c as u32) } else { format!("%{:02X}", c as u32) } } else { c.to_string() }).collect())
+            }),
+        5 => on_component(r, &mut q, true, &mut |r, s| {
+                let v: Vec<char> = s.chars().collect();
+                let esc: Vec<usize> = escapes(s).into_iter().filter(|&e| { let x = u8::from_str_radix(&v[e + 1..e + 3].iter().collect::<String>(), 16).unwrap(); is_unreserved(x as char) && x < 128 }).collect();
+                if esc.is_empty() { return None }
+                let at = esc[r.below(esc.len())];
+                let x = u8::from_str_radix(&v[at + 1..at + 3].iter().collect::<String>(), 16).unwrap() as char;
+                Some(v[..at].iter().collect::<String>() + &x.to_string() + &v[at + 3..].iter().collect::<String>())
+            }),
+        6 => match &p.auth { Some(a) if !a.is_empty() => {
+                let (_, en) = host_range(a);
+                q.auth = Some(if en < a.len() {
+                    let port = &a[en + 1..];
+                    match r.below(3) { 0 => a[..en].to_string(), 1 if !port.is_empty() => format!("{}:", &a[..en]), _ => format!("{}:0{}", &a[..en], port) }
+                } else { format!("{a}{}", r.pick(&[":80", ":443", ":"])) });
+                true
+            } _ => false },
+        7 => if p.segs.is_empty() { q.segs = vec![String::new()]; q.rooted = true; true }
+             else if p.segs.len() == 1 && p.segs[0].is_empty() && p.rooted { q.segs.clear(); q.rooted = p.auth.is_some(); true } else { false },
+        8 => {
+            if q.segs.is_empty() { q.rooted = q.rooted || r.chance(1, 2); }
+            let at = r.below(q.segs.len() + 1);
+            match r.below(6) {
+                0 => q.segs.push(".".into()),
+                1 => { q.segs.push("x".into()); q.segs.push("..".into()); }
+                2 => q.segs.insert(at, ".".into()),
+                3 => { q.segs.insert(at, "..".into()); q.segs.insert(at, "y".into()); }
+                4 => { q.segs.push(".".into()); q.segs.push(String::new()); }
+                _ => { let last = q.segs.pop().unwrap_or_default(); q.segs.push(".".into()); q.segs.push(last); }
+            }
+            true
+        }
+        9 => { if q.segs.len() > 1 && q.segs.last().map_or(false, |x| x.is_empty()) { q.segs.pop(); } else { if q.segs.is_empty() { q.rooted = true; q.segs.push(String::new()); } q.segs.push(String::new()); } true }
+        10 => on_component(r, &mut q, true, &mut |r, s| {
+                const FORMS: &[(&str, &str)] = &[("\u{e9}", "e\u{301}"), ("\u{e8}", "e\u{300}"), ("\u{e9}", "\u{c9}"), ("\u{e8}", "\u{c8}")];
+                let start = r.below(FORMS.len());
+                for d in 0..FORMS.len() {
+                    let (a, b) = FORMS[(start + d) % FORMS.len()];
+                    if s.contains(b) { return Some(s.replacen(b, a, 1)) }
+                    if s.contains(a) { return Some(s.replacen(a, b, 1)) }
+                }
+                None
+            }),
+        11 => { if r.chance(1, 2) { q.query = match &p.query { None => Some(String::new()), Some(x) if x.is_empty() => None, Some(x) => Some(x.clone()) }; }
+                if q.query == p.query { q.frag = match &p.frag { None => Some(String::new()), Some(x) if x.is_empty() => None, Some(x) => Some(x.clone()) }; }
+                if q.frag == p.frag && q.query == p.query { q.query = match &p.query { None => Some(String::new()), Some(x) if x.is_empty() => None, Some(x) => Some(x.clone()) }; }
+                true }
+        12 => on_component(r, &mut q, false, &mut |r, s| {
+                let pos: Vec<usize> = s.chars().enumerate().filter(|(_, c)| c.is_ascii_alphabetic()).map(|(k, _)| k).collect();
+                if pos.is_empty() { None } else { let at = pos[r.below(pos.len())]; Some(toggle_some(r, s, &[at])) }
+            }),
+        _ => match &p.auth {
+            None if p.rooted || p.segs.is_empty() => { q.auth = Some(String::new()); q.rooted = true; true }
+            None => false,
+            Some(a) if a.is_empty() => { q.auth = None; q.rooted = true; true }
+            Some(a) => { q.auth = Some(match a.rfind('@') { Some(k) if r.chance(1, 2) => a[k + 1..].to_string(), Some(k) => toggle_some(r, a, &(0..a[..k].chars().count()).collect::<Vec<_>>()), None => format!("@{a}") }); true }
+        },
+    };
+    if done && q.text() != p.text() { Some(q) } else { None }
+}
+/// some applicable rewriting (starting from a random kind); the kind applied is returned too
+fn variant_any(r: &mut Rng, p: &Parts) -> (Parts, usize) {
+    let start = r.below(KINDS.len());
+    for d in 0..KINDS.len() { let k = (start + d) % KINDS.len(); if let Some(q) = variant(r, p, k) { return (q, k) } }
+    unreachable!("the scheme case can always be changed")
+}
+
+/// bases of the directed stream: every rewriting kind x every relation below is applied to each of them
+const D_BASES: &[&str] = &[
+    "http://example.org/a/b", "HTTP://Example.ORG:80/a/b?q#f", "http://example.org/a/b/c/d?q=1#f", "urn:isbn:123", "x-ample:a/b/c",
+    "http://u@h:8080/%7Euser/%2fx/b?k=%2F#%2f", "s://h", "s://h/", "http://h/a/./b/../c", "https://\u{e9}.example/caf\u{e9}/x", "file:///etc/hosts", "http://[::a]/x/y", "http://h.example/a%2Fb/%7e\u{e9}/c?x=%3d",
+];
+const D_MODES: &[&str] = &["same", "sibling", "fragment", "query", "up"];
+/// an IRI relativizable against `b` (same IRI, other last segment, other fragment, other query, sibling of the parent)
+fn directed_related(b: &Parts, mode: usize) -> Parts {
+    let mut p = b.clone();
+    match mode {
+        0 => {}
+        1 => { p.segs.pop(); p.segs.push("zz".into()); p.query = None; p.frag = None; }
+        2 => { p.frag = Some("F9".into()); }
+        3 => { p.query = Some("Q9".into()); p.frag = None; }
+        _ => { if p.segs.len() >= 2 { p.segs.pop(); p.segs.pop(); p.segs.push("up".into()); } else { p.segs.push("child".into()); } p.query = None; p.frag = None; }
+    }
+    if p.auth.is_some() { p.rooted = true; }
+    p
+}
+
 const REFS: &[&str] = &[
     "", "#f", "?q", "?q#f", "x", "x/y", "./x", "../x", "../../x", "../../../x", "../../../../x", "./", "../", ".", "..", "/x", "/x/../y", "/../x", "/./x", "/", "//h/x", "//h/x/../y", "//h",
     "x:y", "./x:y", "s:x/../y", "http://h/./x", "x/./y", "x/../y", "x/..", "x/.", "x//y", "x/../../y", "..x", ".x/", "x?q/../r", "x#f/../g", "\u{e9}/../\u{e8}", "a/b/c/../../../../d", ".../x", "x/...", "./..", "../.", "./../x", "x/./", "/.", "/..", "?", "#",
@@ -114,7 +333,6 @@ fn lead_parents(r: &str) -> usize { let mut k = 0; let mut s = r; while let Some
 /// the other three entry points of resolution (BaseIri::resolve_into, BaseIriRef::resolve, BaseIriRef::resolve_into)
 /// must give what BaseIri::resolve gives; returns a description of the first difference
 fn resolve_entry_points_agree(b: &str, rf: &str, expected: &Result<String, ()>) -> Option<String> {
-    use sophia_iri::resolve::BaseIriRef;
     let base = BaseIri::new(b.to_string()).ok()?;
     let mut buf = String::from("stale content ");
     buf.clear();
@@ -126,28 +344,168 @@ fn resolve_entry_points_agree(b: &str, rf: &str, expected: &Result<String, ()>) 
     let mut buf2 = String::new();
     let r3: Result<String, ()> = bref.resolve_into(rf, &mut buf2).map(|x| x.as_str().to_string()).map_err(|_| ());
     if &r3 != expected { return Some(format!("BaseIriRef::resolve_into gives {r3:?} where BaseIri::resolve gives {expected:?}")); }
+    // ---- round 4: the same through the other constructions of a base and the other container types (&str routes)
+    let more: Vec<(&str, Result<String, ()>)> = vec![
+        ("BaseIri<&str>::resolve", base.as_ref().resolve(rf).map(|x| x.as_str().to_string()).map_err(|_| ())),
+        ("BaseIri<Box<str>>::resolve", BaseIri::new(Box::<str>::from(b)).ok()?.resolve(rf).map(|x| x.as_str().to_string()).map_err(|_| ())),
+        ("BaseIri<Arc<str>>::resolve", BaseIri::new(std::sync::Arc::<str>::from(b)).ok()?.resolve(rf).map(|x| x.as_str().to_string()).map_err(|_| ())),
+        ("Iri::to_base().resolve", match Iri::new(b.to_string()) { Ok(w) => w.to_base().resolve(rf).map(|x| x.as_str().to_string()).map_err(|_| ()), Err(_) => expected.clone() }),
+        ("Iri::as_base().resolve", match Iri::new(b) { Ok(w) => w.as_base().resolve(rf).map(|x| x.as_str().to_string()).map_err(|_| ()), Err(_) => expected.clone() }),
+        ("BaseIriRef::to_base_iri().resolve", BaseIriRef::new(b.to_string()).ok()?.to_base_iri().resolve(rf).map(|x| x.as_str().to_string()).map_err(|_| ())),
+        ("IriRef::to_base().resolve", match IriRef::new(b.to_string()) { Ok(w) => w.to_base().resolve(rf).map(|x| x.as_str().to_string()).map_err(|_| ()), Err(_) => expected.clone() }),
+        ("IriRef::as_base().resolve_into", match IriRef::new(b) { Ok(w) => { let mut bf = String::new(); w.as_base().resolve_into(rf, &mut bf).map(|x| x.as_str().to_string()).map_err(|_| ()) } Err(_) => expected.clone() }),
+        ("BaseIri::clone().resolve", base.clone().resolve(rf).map(|x| x.as_str().to_string()).map_err(|_| ())),
+    ];
+    for (name, got) in more { if &got != expected { return Some(format!("{name} gives {got:?} where BaseIri::resolve gives {expected:?}")); } }
+    // ---- the typed routes (impl Resolvable for U: IsIriRef: output_abs / output_rel unwrap the result, so an error is a panic)
+    if let Ok(tr) = IriRef::new(rf) {
+        let typed: Vec<(&str, Result<String, ()>)> = vec![
+            ("BaseIri::resolve(IriRef)", catch_unwind(AssertUnwindSafe(|| base.resolve(tr).as_str().to_string())).map_err(|_| ())),
+            ("BaseIri::resolve_into(IriRef)", catch_unwind(AssertUnwindSafe(|| { let mut bf = String::new(); base.resolve_into(tr, &mut bf).as_str().to_string() })).map_err(|_| ())),
+            ("BaseIriRef::resolve(IriRef)", catch_unwind(AssertUnwindSafe(|| bref.resolve(tr).as_str().to_string())).map_err(|_| ())),
+            ("BaseIriRef::resolve_into(IriRef)", catch_unwind(AssertUnwindSafe(|| { let mut bf = String::new(); bref.resolve_into(tr, &mut bf).as_str().to_string() })).map_err(|_| ())),
+            ("Iri::resolve(IriRef)", match Iri::new(b) { Ok(wb) => catch_unwind(AssertUnwindSafe(|| wb.resolve(tr).as_str().to_string())).map_err(|_| ()), Err(_) => expected.clone() }),
+            ("IriRef::resolve(IriRef)", match IriRef::new(b) { Ok(wb) => catch_unwind(AssertUnwindSafe(|| wb.resolve(tr).as_str().to_string())).map_err(|_| ()), Err(_) => expected.clone() }),
+            ("BaseIri::resolve(IriRef<Cow>)", catch_unwind(AssertUnwindSafe(|| { let c: IriRef<Cow<str>> = IriRef::new_unchecked(Cow::Owned(rf.to_string())); base.resolve(c.as_ref()).as_str().to_string() })).map_err(|_| ())),
+            ("BaseIri::resolve(Iri) of an absolute reference", match Iri::new(rf) { Ok(ti) => catch_unwind(AssertUnwindSafe(|| base.resolve(ti).as_str().to_string())).map_err(|_| ()), Err(_) => expected.clone() }),
+        ];
+        for (name, got) in typed { if &got != expected { return Some(format!("{name} gives {got:?} (Err = panic) where BaseIri::resolve(&str) gives {expected:?}")); } }
+    }
     None
+}
+
+/// Relativizer over the container type T, built from `base`: base(), relativize every IRI of `iris`, then the same
+/// through a clone in the opposite order (a Relativizer is reused for many IRIs; nothing may depend on the history)
+fn run_rel<T: Deref<Target = str> + Clone>(base: BaseIri<T>, n: u8, iris: &[&str]) -> Result<(String, Vec<Option<String>>), String> {
+    catch_unwind(AssertUnwindSafe(|| {
+        let rel = Relativizer::new(base, n);
+        let bt = rel.base().as_str().to_string();
+        let one = |rl: &Relativizer<T>, i: &str| catch_unwind(AssertUnwindSafe(|| rl.relativize(Iri::new_unchecked(i)).map(|x| x.as_str().to_string()))).map_err(|_| ());
+        let fwd: Vec<Result<Option<String>, ()>> = iris.iter().map(|i| one(&rel, i)).collect();
+        let cl = rel.clone();
+        let mut bwd: Vec<Result<Option<String>, ()>> = iris.iter().rev().map(|i| one(&cl, i)).collect();
+        bwd.reverse();
+        if fwd != bwd { return Err(format!("the clone of the Relativizer, asked in the opposite order, gives {bwd:?} where the original gives {fwd:?}")) }
+        let again: Vec<Result<Option<String>, ()>> = iris.iter().map(|i| one(&rel, i)).collect();
+        if fwd != again { return Err(format!("asking the same Relativizer again gives {again:?} after {fwd:?}")) }
+        if cl.base().as_str() != bt { return Err("base() of the clone differs".to_string()) }
+        if fwd.iter().any(|x| x.is_err()) { return Err(format!("relativize panicked: {fwd:?}")) }
+        Ok((bt, fwd.into_iter().map(|x| x.unwrap()).collect()))
+    })).unwrap_or_else(|_| Err("Relativizer::new / base() panicked".to_string()))
+}
+/// every construction of a Relativizer must behave like Relativizer<&str> built from BaseIri::as_ref
+fn relativizer_entry_points_agree(b: &str, n: u8, iris: &[&str], expected: &[Option<String>]) -> Option<String> {
+    let exp: Result<(String, Vec<Option<String>>), String> = Ok((b.to_string(), expected.to_vec()));
+    let runs: Vec<(&str, Result<(String, Vec<Option<String>>), String>)> = vec![
+        ("Relativizer<String>", run_rel(BaseIri::new(b.to_string()).ok()?, n, iris)),
+        ("Relativizer<Box<str>>", run_rel(BaseIri::new(Box::<str>::from(b)).ok()?, n, iris)),
+        ("Relativizer<Rc<str>>", run_rel(BaseIri::new(std::rc::Rc::<str>::from(b)).ok()?, n, iris)),
+        ("Relativizer<Arc<str>>", run_rel(BaseIri::new(std::sync::Arc::<str>::from(b)).ok()?, n, iris)),
+        ("Relativizer<Cow<str>> (borrowed)", run_rel(BaseIri::new(Cow::Borrowed(b)).ok()?, n, iris)),
+        ("Relativizer<Cow<str>> (owned)", run_rel(BaseIri::new(Cow::<str>::Owned(b.to_string())).ok()?, n, iris)),
+        ("Relativizer<&str> from Iri::as_base", match Iri::new(b) { Ok(w) => run_rel(w.as_base(), n, iris), Err(_) => exp.clone() }),
+        ("Relativizer<String> from Iri::to_base", match Iri::new(b.to_string()) { Ok(w) => run_rel(w.to_base(), n, iris), Err(_) => exp.clone() }),
+        ("Relativizer<String> from BaseIriRef::to_base_iri", run_rel(BaseIriRef::new(b.to_string()).ok()?.to_base_iri(), n, iris)),
+        ("Relativizer<&str> from a cloned BaseIri", run_rel(BaseIri::new(b).ok()?.clone(), n, iris)),
+    ];
+    for (name, got) in runs { if got != exp { return Some(format!("{name} gives {got:?} where Relativizer<&str> gives {exp:?}")); } }
+    None
+}
+
+struct Verdict { code: u8, out: String, back_ok: bool, back: String }
+impl Verdict {
+    fn desc(&self, n: u8) -> String { format!("n={n}:{}", match self.code { 0 => "None".to_string(), 2 => "PANIC".to_string(), _ => format!("{:?}->{}", self.out, if self.back_ok { self.back.clone() } else { "ERR".into() }) }) }
+    fn coq(&self, b: &str, i: &str, n: u8) -> String { format!("case_ok {b} {i} {n} {} {} {} {}", self.code, coq_bytes(self.out.as_bytes()), coq_bool(self.back_ok), coq_bytes(self.back.as_bytes())) }
+}
+/// ---- the property oracle ---- for one (base, IRI, parents) and the observed result of relativize
+fn judge(sum: &mut Summary, key: String, base: &BaseIri<String>, b: &str, i: &str, n: u8, got: &Result<Option<String>, ()>) -> Verdict {
+    let ib = BaseIri::new(i.to_string()).unwrap();
+    let same_path = base.scheme() == ib.scheme() && base.authority() == ib.authority() && base.path() == ib.path();
+    let same_upto_frag = same_path && base.query() == ib.query();
+    let (code, out, back_ok, back): (u8, String, bool, String) = match got {
+        Err(_) => (2, String::new(), false, String::new()),
+        Ok(None) => (0, String::new(), false, String::new()),
+        Ok(Some(rf)) => match base.resolve(rf.as_str()) {
+            Ok(x) => (1, rf.clone(), true, x.as_str().to_string()),
+            Err(_) => (1, rf.clone(), false, String::new()),
+        },
+    };
+    let fail = |sum: &mut Summary, what: String| {
+        sum.oracle_failures.push((key.clone(), format!("base <{b}> iri <{i}> parents {n}: {what}")));
+    };
+    if code == 1 {
+        let exp: Result<String, ()> = if back_ok { Ok(back.clone()) } else { Err(()) };
+        if let Ok(Some(d)) = catch_unwind(AssertUnwindSafe(|| resolve_entry_points_agree(b, &out, &exp))) { fail(sum, format!("relativize returned {out:?}; resolving it back: {d}")); }
+    }
+    match code {
+        2 => fail(sum, "relativize panicked".into()),
+        1 => {
+            if !back_ok { fail(sum, format!("relativize returned {out:?}, which BaseIri::resolve rejects")); }
+            else if back != i { fail(sum, format!("relativize returned {out:?}, which resolves to <{back}>, not to the IRI")); }
+            if lead_parents(&out) > n as usize { fail(sum, format!("relativize returned {out:?} with more than {n} '../'")); }
+            // the reference is not an absolute IRI nor a network-path reference (it really is relative to the base)
+            if out.starts_with("//") || IriRef::new(out.as_str()).is_err() || Iri::new(out.as_str()).is_ok() { fail(sum, format!("relativize returned {out:?}, which is not a relative reference without authority")); }
+        }
+        _ => {
+            if same_path {
+                // "always relativised": a reference that is a proper suffix of the IRI (optionally after "./"),
+                // not a network-path reference, resolves to the IRI, yet nothing was returned
+                let mut cands: Vec<String> = vec![];
+                for k in 1..=i.len() { if i.is_char_boundary(k) { cands.push(i[k..].to_string()); cands.push(format!("./{}", &i[k..])); } }
+                cands.push(".".into());
+                let witness = cands.iter().find(|c| !c.starts_with("//") && lead_parents(c) == 0 && matches!(base.resolve(c.as_str()), Ok(x) if x.as_str() == i));
+                if same_upto_frag || witness.is_some() {
+                    fail(sum, format!("IRI differs from the base in query/fragment only but relativize returned None{}", witness.map(|w| format!(" (e.g. {w:?} resolves to it)")).unwrap_or_default()));
+                } else if let Some(w) = cands.iter().find(|c| c.starts_with("//") && matches!(base.resolve(c.as_str()), Ok(x) if x.as_str() == i)) {
+                    // the property says "always relativised"; the only reference that resolves to the IRI is a
+                    // network-path one, which relativize never produces: a (listed) finding, not a wrong answer
+                    fail(sum, format!("no-query corner: IRI differs from the base only by dropping the query, relativize returned None although the network-path reference {w:?} resolves to it"));
+                } else { sum.bump("same-path-but-no-reference-exists"); }
+            }
+        }
+    }
+    Verdict { code, out, back_ok, back }
 }
 
 fn main() {
     let a = parse_args();
     let mut sum = Summary::default();
-    sum.rule = "case = one (base, IRI) pair x parents limit 0..4 (+ 2 (base, reference) pairs for the resolver models); the first cases are hand-written witnesses, the others are generated: \
-base = scheme x optional authority (ASCII, with port/userinfo, multi-byte, empty, IP literal) x rooted/rootless/empty path of 0..5 segments from a vocabulary with empty, dot, colon and multi-byte segments x optional query/fragment containing '/' and '?'; \
-IRI = 70% derived from the base (same scheme/authority, a prefix of its segments, then other segments; or same path and other query/fragment; sometimes the authority dropped/added/extended), 30% independent; \
+    sum.rule = "case = one (base, IRI) pair x parents limit 0..4, 255 and one random limit in 5..254 (+ the base itself and the base with another fragment asked to the same Relativizer at limits 0 and 255; + 2 (base, reference) pairs for the resolver models); \
+the first cases are hand-written witnesses; then a DIRECTED stream: 13 bases x 14 rewritings into an equivalent-but-not-identical text (scheme case, host case, percent-encoding case, encoded/decoded unreserved characters, default port, empty path vs '/', dot segments, trailing slash, Unicode form, empty query/fragment, letter case elsewhere, userinfo / empty authority) x 5 relations (same IRI, sibling, other fragment, other query, parent's sibling), the rewriting applied to the IRI or to the base; the others are generated: \
+base = scheme x optional authority (ASCII, with port/userinfo, multi-byte, empty, IP literal, mixed case, escapes) x rooted/rootless/empty path of 0..5 (one in ten: 6..12) segments from a vocabulary with empty, dot, colon, escaped and multi-byte segments x optional query/fragment containing '/' and '?', one base in four rewritten as above; \
+IRI = 45% derived from the base (same scheme/authority, a prefix of its segments, then other segments; or same path and other query/fragment; sometimes the authority dropped/added/extended), 15% a rewriting of the base, 25% a rewriting of a derived IRI, 15% independent; \
 non-trivial = IRI and base share scheme and authority text (so the path/query branches of relativize are exercised); distinct = distinct (base, IRI)".into();
     let base_rng = Rng::new(a.seed);
     let header = "From Sophia.C17 Require Import Model.\n".to_string();
     let mut cases = vec![];
     let mut seen = std::collections::HashSet::new();
     let prev_hook = std::panic::take_hook();
-    std::panic::set_hook(Box::new(|_| {}));
+    if std::env::var("C17_LOUD").is_err() { std::panic::set_hook(Box::new(|_| {})); }
     let range: Vec<usize> = match a.only { Some(i) => vec![i], None => (0..a.n).collect() };
+    let n_directed = D_BASES.len() * KINDS.len() * D_MODES.len();
     for idx in range {
         let mut r = base_rng.fork(idx as u64);
-        let (b, i) = if idx < FIXED.len() { (FIXED[idx].0.to_string(), FIXED[idx].1.to_string()) } else {
-            let bp = gen_parts(&mut r);
-            let ip = if r.chance(7, 10) { gen_related(&mut r, &bp) } else { gen_parts(&mut r) };
+        let mut origin = String::new();
+        let (b, i) = if idx < FIXED.len() { (FIXED[idx].0.to_string(), FIXED[idx].1.to_string()) } else if idx < FIXED.len() + n_directed {
+            // ---- directed stream ----
+            let d = idx - FIXED.len();
+            let (bi, kind, mode) = (d / (KINDS.len() * D_MODES.len()), (d / D_MODES.len()) % KINDS.len(), d % D_MODES.len());
+            let bp = parse_parts(D_BASES[bi]);
+            let rel = directed_related(&bp, mode);
+            let swap = (bi + kind + mode) % 3 == 0;
+            let Some(v) = variant(&mut r, if swap { &bp } else { &rel }, kind) else { sum.bump("directed:rewriting-not-applicable"); continue };
+            sum.bump(&format!("directed:{}", KINDS[kind]));
+            origin = format!(" [directed: {} / {}{}]", KINDS[kind], D_MODES[mode], if swap { " / base rewritten" } else { "" });
+            if swap { (v.text(), rel.text()) } else { (bp.text(), v.text()) }
+        } else {
+            let mut bp = gen_parts(&mut r);
+            if r.chance(1, 4) { let (v, k) = variant_any(&mut r, &bp); bp = v; sum.bump(&format!("base-rewritten:{}", KINDS[k])); }
+            let sel = r.below(20);
+            let mut ip = if sel < 9 { gen_related(&mut r, &bp) } else if sel < 12 { bp.clone() } else if sel < 17 { gen_related(&mut r, &bp) } else { gen_parts(&mut r) };
+            if (9..17).contains(&sel) {
+                let twice = r.chance(1, 3);
+                for _ in 0..(if twice { 2 } else { 1 }) { let (v, k) = variant_any(&mut r, &ip); ip = v; sum.bump(&format!("iri-rewritten:{}", KINDS[k])); origin.push_str(&format!(" [{}]", KINDS[k])); }
+            }
             (bp.text(), ip.text())
         };
         let Ok(base) = BaseIri::new(b.clone()) else { sum.bump("skipped:invalid-base"); continue };
@@ -155,63 +513,64 @@ non-trivial = IRI and base share scheme and authority text (so the path/query br
         if BaseIri::new(i.clone()).is_err() { sum.bump("skipped:invalid-iri"); continue }
         let ib = BaseIri::new(i.clone()).unwrap();
         let same_path = base.scheme() == ib.scheme() && base.authority() == ib.authority() && base.path() == ib.path();
-        let same_upto_frag = same_path && base.query() == ib.query();
         let shares_auth = base.scheme() == ib.scheme() && base.authority() == ib.authority();
+        let equivalent_root = !shares_auth && base.scheme().eq_ignore_ascii_case(ib.scheme()) && base.authority().map(|x| x.to_ascii_lowercase()) == ib.authority().map(|x| x.to_ascii_lowercase());
         let mut body = vec![];
         let mut descs = vec![];
-        for n in 0u8..=4 {
-            let got = std::panic::catch_unwind(std::panic::AssertUnwindSafe(|| {
-                let rel = Relativizer::new(base.as_ref(), n);
-                rel.relativize(iri.as_ref()).map(|x| x.as_str().to_string())
-            }));
-            let (code, out, back_ok, back): (u8, String, bool, String) = match &got {
-                Err(_) => (2, String::new(), false, String::new()),
-                Ok(None) => (0, String::new(), false, String::new()),
-                Ok(Some(rf)) => match base.resolve(rf.as_str()) {
-                    Ok(x) => (1, rf.clone(), true, x.as_str().to_string()),
-                    Err(_) => (1, rf.clone(), false, String::new()),
-                },
-            };
-            // ---- the property oracle ----
-            let fail = |sum: &mut Summary, what: String| {
-                sum.oracle_failures.push((format!("{idx}/n={n}"), format!("base <{b}> iri <{i}> parents {n}: {what}")));
-            };
-            if code == 1 {
-                let exp: Result<String, ()> = if back_ok { Ok(back.clone()) } else { Err(()) };
-                if let Ok(Some(d)) = std::panic::catch_unwind(|| resolve_entry_points_agree(&b, &out, &exp)) { fail(&mut sum, format!("relativize returned {out:?}; resolving it back: {d}")); }
+        let cb = "b".to_string();
+        let ci = "i".to_string();
+        // the components BaseIri reports for the base (Relativizer::new reads scheme, authority and path); Borrow / Deref impls
+        {
+            let bref = BaseIriRef::new(b.as_str()).unwrap();
+            let s1: &str = base.borrow();
+            let s2: &str = bref.borrow();
+            if s1 != b || s2 != b || base.as_str() != b || bref.as_str() != b { sum.oracle_failures.push((format!("{idx}/components"), format!("base <{b}>: Borrow<str> / as_str of BaseIri or BaseIriRef differ from the text"))); }
+            if !bref.is_absolute() || bref.scheme() != Some(base.scheme()) || bref.authority() != base.authority() || bref.path() != base.path() || bref.query() != base.query() || bref.fragment() != base.fragment() {
+                sum.oracle_failures.push((format!("{idx}/components"), format!("base <{b}>: the components reported by BaseIriRef differ from those reported by BaseIri")));
             }
-            match code {
-                2 => fail(&mut sum, "relativize panicked".into()),
-                1 => {
-                    if !back_ok { fail(&mut sum, format!("relativize returned {out:?}, which BaseIri::resolve rejects")); }
-                    else if back != i { fail(&mut sum, format!("relativize returned {out:?}, which resolves to <{back}>, not to the IRI")); }
-                    if lead_parents(&out) > n as usize { fail(&mut sum, format!("relativize returned {out:?} with more than {n} '../'")); }
-                }
-                _ => {
-                    if same_path {
-                        // "always relativised": a reference that is a proper suffix of the IRI (optionally after "./"),
-                        // not a network-path reference, resolves to the IRI, yet nothing was returned
-                        let mut cands: Vec<String> = vec![];
-                        for k in 1..=i.len() { if i.is_char_boundary(k) { cands.push(i[k..].to_string()); cands.push(format!("./{}", &i[k..])); } }
-                        cands.push(".".into());
-                        let witness = cands.iter().find(|c| !c.starts_with("//") && lead_parents(c) == 0 && matches!(base.resolve(c.as_str()), Ok(x) if x.as_str() == i));
-                        if same_upto_frag || witness.is_some() {
-                            fail(&mut sum, format!("IRI differs from the base in query/fragment only but relativize returned None{}", witness.map(|w| format!(" (e.g. {w:?} resolves to it)")).unwrap_or_default()));
-                        } else if let Some(w) = cands.iter().find(|c| c.starts_with("//") && matches!(base.resolve(c.as_str()), Ok(x) if x.as_str() == i)) {
-                            // the property says "always relativised"; the only reference that resolves to the IRI is a
-                            // network-path one, which relativize never produces: a (listed) finding, not a wrong answer
-                            fail(&mut sum, format!("no-query corner: IRI differs from the base only by dropping the query, relativize returned None although the network-path reference {w:?} resolves to it"));
-                        } else { sum.bump("same-path-but-no-reference-exists"); }
-                    }
-                }
+            let mut rec = format!("{}:", base.scheme());
+            if let Some(x) = base.authority() { rec.push_str("//"); rec.push_str(x); }
+            rec.push_str(base.path());
+            if let Some(x) = base.query() { rec.push('?'); rec.push_str(x); }
+            if let Some(x) = base.fragment() { rec.push('#'); rec.push_str(x); }
+            if rec != b { sum.oracle_failures.push((format!("{idx}/components"), format!("base <{b}>: scheme/authority/path/query/fragment recompose to <{rec}>"))); }
+            let o = |x: Option<&str>| coq_opt(x.map(|y| coq_bytes(y.as_bytes())));
+            body.push(format!("components_ok b {} {} {} {} {}", coq_bytes(base.scheme().as_bytes()), o(base.authority()), coq_bytes(base.path().as_bytes()), o(base.query()), o(base.fragment())));
+        }
+        // secondary IRIs asked to the same Relativizer: the base itself, and the base with another fragment
+        let b_frag = format!("{}#zz", b.split('#').next().unwrap());
+        let extra_n = r.range(5, 254) as u8;
+        for n in [0u8, 1, 2, 3, 4, 255, extra_n] {
+            let iris: [&str; 3] = [i.as_str(), b.as_str(), b_frag.as_str()];
+            let got: Vec<Result<Option<String>, ()>> = match catch_unwind(AssertUnwindSafe(|| Relativizer::new(base.as_ref(), n))) {
+                Ok(rel) => iris.iter().map(|x| catch_unwind(AssertUnwindSafe(|| rel.relativize(Iri::new_unchecked(*x)).map(|y| y.as_str().to_string()))).map_err(|_| ())).collect(),
+                Err(_) => vec![Err(()), Err(()), Err(())],
+            };
+            let _ = &iri;
+            let v = judge(&mut sum, format!("{idx}/n={n}"), &base, &b, &i, n, &got[0]);
+            let (code, out) = (v.code, v.out.clone());
+            // every other construction / container type of the Relativizer
+            if got.iter().all(|x| x.is_ok()) {
+                let exp: Vec<Option<String>> = got.iter().map(|x| x.clone().unwrap()).collect();
+                if let Some(d) = relativizer_entry_points_agree(&b, n, &iris, &exp) { sum.oracle_failures.push((format!("{idx}/n={n}/entry"), format!("base <{b}> iris {iris:?} parents {n}: {d}"))); }
             }
-            sum.bump(&format!("n={n}:{}", ["none", "some", "panic"][code as usize]));
+            // equivalent but not identical scheme/authority: any reference would resolve to another text
+            if equivalent_root && code == 1 { sum.bump("equivalent-root:some(!)"); } else if equivalent_root { sum.bump("equivalent-root:none"); }
+            sum.bump(&format!("n={}:{}", if n == extra_n && n > 4 && n != 255 { "5..254".to_string() } else { n.to_string() }, ["none", "some", "panic"][code as usize]));
             if code == 1 {
                 sum.bump(if out.starts_with("../") { "ref:../" } else if out.starts_with("./") { "ref:./" } else if out.starts_with('/') { "ref:/abs" } else if out.starts_with('?') { "ref:?query" } else if out.is_empty() || out.starts_with('#') { "ref:#frag-or-empty" } else { "ref:path" });
+                if lead_parents(&out) > 4 { sum.bump("ref:more-than-4-parents"); }
             }
-            descs.push(format!("n={n}:{}", match code { 0 => "None".to_string(), 2 => "PANIC".to_string(), _ => format!("{out:?}->{}", if back_ok { back.clone() } else { "ERR".into() }) }));
-            body.push(format!("case_ok b i {n} {code} {} {} {}", coq_bytes(out.as_bytes()), coq_bool(back_ok), coq_bytes(back.as_bytes())));
+            descs.push(v.desc(n));
+            body.push(format!("{} && shares_root_ok b i {code}", v.coq(&cb, &ci, n)));
             sum.evaluations += 1;
+            // the base itself / the base with another fragment: always relativised (to "" / "#..." ), at every limit;
+            // compared with the model at the limits 0 and 255
+            for (k, other) in [(1usize, &b), (2usize, &b_frag)] {
+                let w = judge(&mut sum, format!("{idx}/n={n}/{}", ["", "self", "fragment"][k]), &base, &b, other, n, &got[k]);
+                sum.bump(&format!("{}:{}", ["", "self", "other-fragment"][k], ["none(!)", "some", "panic"][w.code as usize]));
+                if n == 0 || n == 255 { body.push(w.coq(&cb, &coq_bytes(other.as_bytes()), n)); sum.evaluations += 1; }
+            }
         }
         // ---- (base, reference) pairs: the resolver models against BaseIri::resolve ----
         for _ in 0..2 {
@@ -222,20 +581,21 @@ non-trivial = IRI and base share scheme and authority text (so the path/query br
             if !ok && !rf.starts_with(':') && !format!("{:?}", res).contains("TwoSlashes") { sum.bump("resolve:other-error-skipped"); continue }
             {
                 let exp: Result<String, ()> = if ok { Ok(out.clone()) } else { Err(()) };
-                if let Ok(Some(d)) = std::panic::catch_unwind(|| resolve_entry_points_agree(&b, &rf, &exp)) { sum.oracle_failures.push((format!("{idx}/resolve"), format!("base <{b}> reference {rf:?}: the entry points of resolution disagree: {d}"))); }
+                if let Ok(Some(d)) = catch_unwind(AssertUnwindSafe(|| resolve_entry_points_agree(&b, &rf, &exp))) { sum.oracle_failures.push((format!("{idx}/resolve"), format!("base <{b}> reference {rf:?}: the entry points of resolution disagree: {d}"))); }
             }
             sum.bump(if ok { "resolve:ok" } else { "resolve:error" });
             body.push(format!("resolve_ok b {} {} {}", coq_bytes(rf.as_bytes()), coq_bool(ok), coq_bytes(out.as_bytes())));
             body.push(format!("resolve_rfc_ok b {} {} {}", coq_bytes(rf.as_bytes()), coq_bool(ok), coq_bytes(out.as_bytes())));
             sum.evaluations += 1;
         }
-        let text = format!("base=<{b}> iri=<{i}>");
+        let text = format!("base=<{b}> iri=<{i}>{origin}");
         if a.only.is_some() { println!("CASE {idx}: {text} => {}", descs.join(" ")); }
         if shares_auth { sum.bump("shares-scheme-authority"); }
+        if equivalent_root { sum.bump("scheme-authority-equal-up-to-case-only"); }
         if same_path { sum.bump("same-path"); }
         if !b.is_ascii() || !i.is_ascii() { sum.bump("non-ascii"); }
-        if seen.insert(text.clone()) && shares_auth { sum.distinct_nontrivial += 1; }
-        if sum.samples.len() < 6 && idx >= FIXED.len() && shares_auth { sum.samples.push(format!("case {idx}: {text} => {}", descs.join(" "))); }
+        if seen.insert(format!("base=<{b}> iri=<{i}>")) && shares_auth { sum.distinct_nontrivial += 1; }
+        if sum.samples.len() < 6 && idx >= FIXED.len() + n_directed && shares_auth { sum.samples.push(format!("case {idx}: {text} => {}", descs.join(" "))); }
         cases.push((idx, format!("let b := {} in let i := {} in\n  {}", coq_bytes(b.as_bytes()), coq_bytes(i.as_bytes()), body.join("\n  && "))));
     }
     std::panic::set_hook(prev_hook);
